@@ -13,7 +13,7 @@ for d in sorted(glob.glob(os.path.join(root, "C*", "*"))):
     pid, k = d.split("/")[-2:]
     if only and pid not in only and f"{pid}/{k}" not in only: continue
     if sh(f"git -C /repo apply {d}/patch.diff").returncode:
-        print(f"{pid}/{k}: patch-does-not-apply"); sh("git -C /repo checkout -- ."); continue
+        print(f"{pid}/{k}: patch-does-not-apply"); sh("git -C /repo checkout -- . && git -C /repo clean -fdq -- acnportal"); continue
     try:
         res = {}
         for p in (claimed if allp else [pid]):
@@ -22,5 +22,5 @@ for d in sorted(glob.glob(os.path.join(root, "C*", "*"))):
             errs = [e[:160] for e in re.findall(r"^ANALYSIS-ERROR.*$", c.stdout, re.M)]
             if c.returncode: res[p] = (c.returncode, rules or errs)
     finally:
-        sh("git -C /repo checkout -- .")
+        sh("git -C /repo checkout -- . && git -C /repo clean -fdq -- acnportal")
     print(f"{pid}/{k}: {res if res else 'silent'}", flush=True)
